@@ -255,6 +255,13 @@ def run_case(case, ctx):
         got, err = 'ERROR', e
     except LookupContractBroken:
         raise
+    except Exception as e:
+        # neither an answer nor the documented conflict error: the lookup itself broke
+        ctx.violation('lookup', {
+            'sig': 'lookup-crash:' + type(e).__name__, 'type': case['type'],
+            'registration_order': case['order'], 'constraints_satisfied': case['truth'],
+            'default': case['default'], 'exc': repr(e)[:200]})
+        return
     ok = (got == 'ERROR') if want == 'ERROR' else (got is want)
     if not ok:
         ctx.violation('lookup', {
